@@ -267,7 +267,11 @@ Section Interp.
              let room := (Z.to_nat MAX_DEV_BUF - length (sd_to d))%nat in
              (* cbuf_write (WRAP_MANY): old bytes are overwritten when the string does not fit; the C then
                 asserts dropped == strlen(str) - written, i.e. dropped == 0 *)
-             if Nat.ltb room (length str) then Abort SITE_SEND_ASSERT
+             if Nat.ltb room (length str) then
+               (* overrun: before the repair of F38 the assert fired; now the oldest unsent bytes are overwritten and the
+                  overrun is only logged (no telemetry line in that branch) *)
+               if SEND_OVERRUN_ASSERT then Abort SITE_SEND_ASSERT
+               else Ok (set_to (lastn (Z.to_nat MAX_DEV_BUF) (sd_to d ++ str)) d, [EvSent str])
              else Ok (set_to (sd_to d ++ str) d, EvSent str :: tele a (msg_send d (memstr str)))
            end in
     match first_time with
